@@ -190,6 +190,8 @@ class World:
             return _REAL_UN[ast[1]](self.build(ast[2]))
         if t == "bi":
             return _REAL_BI[ast[1]](self.build(ast[2]), *ast[3])
+        if t == "idx":
+            return self.build(ast[1])[ast[2]]
         if t == "call":
             f = getattr(self.rootref["f"], ast[1])
             return f(*[self.build(a) for a in ast[2]], **{k: self.build(a) for k, a in ast[3]})
@@ -278,18 +280,26 @@ class World:
             self._assign(path, newc, op[3] if len(op) > 3 else "item")
         elif kind == "regf":
             _, name, deps, targets, coefs = op[:5]
-            tdeps = set()
+            # (op[6], "hand the sets over as lists with repeated entries", is ignored: FunctionTask declares Set[BaseRef] and
+            #  the unmodified code itself mishandles a repeated entry - register counts it twice, unregister of a reader once)
+            aslist = False
+            tdeps = [] if aslist else set()
             for d in deps:
-                tdeps.update(self.ref(p) for p in prefixes(d))
-            ttar = set()
+                (tdeps.extend if aslist else tdeps.update)(self.ref(p) for p in prefixes(d))
+            ttar = [] if aslist else set()
             for t in targets:
-                ttar.update(self.ref(p) for p in prefixes(t))
+                # as lists, an enclosing container shared by two targets is listed twice
+                (ttar.extend if aslist else ttar.update)(self.ref(p) for p in prefixes(t))
             act = FtAction(self.basecont, name, deps, targets, coefs)
             reftid = len(op) > 5 and op[5]
             task = self.xd.tasks.FunctionTask(self.ref(targets[0]) if reftid else "f:%s" % name, act, ttar, tdeps)
             mgr.register(task)
             self.ftasks[name] = task
-            mgr.run_tasks(mgr.find_tasks(task.dependencies))
+            if deps:
+                mgr.run_tasks(mgr.find_tasks(task.dependencies))
+            else:
+                # nothing triggers a task without dependencies: the user runs it (and whatever depends on it) once
+                mgr.run_tasks([mgr.tasks[t] for t in mgr.find_taskids_from_tasks([task.taskid])])
         elif kind == "unregf":
             mgr.unregister(self.ftasks[op[1]].taskid)
             del self.ftasks[op[1]]
